@@ -19,9 +19,12 @@ import xml.parsers.expat
 VERIF = os.path.dirname(os.path.dirname(os.path.abspath(__file__)))
 REPO = os.environ.get("VERIF_REPO", "/repo")
 SPEC = os.path.join(VERIF, "spec")
-HARNESS = os.path.join(VERIF, "harness")
-WORK = os.path.join(VERIF, ".work")
-EVID = os.path.join(VERIF, "evidence")
+# VERIF_HARNESS / VERIF_WORK / VERIF_EVID: used by bin/seedtest to run the checks
+# against a scratch worktree without disturbing /repo, the harness build or
+# the committed evidence (the registered checks never set them)
+HARNESS = os.environ.get("VERIF_HARNESS", os.path.join(VERIF, "harness"))
+WORK = os.environ.get("VERIF_WORK", os.path.join(VERIF, ".work"))
+EVID = os.environ.get("VERIF_EVID", os.path.join(VERIF, "evidence"))
 REPLAYS = os.path.join(EVID, "replays")
 NCPU = os.cpu_count() or 4
 
